@@ -190,7 +190,7 @@ func budget(tier string) time.Duration {
 	if tier == "thorough" {
 		return 15 * time.Minute
 	}
-	return 150 * time.Second
+	return 240 * time.Second
 }
 
 type ReplayFile struct {
